@@ -57,6 +57,7 @@ func c06Decode(comp, in []byte, crc bool, reads []int) (class, detail string) {
 
 func C06(args []string) {
 	r := core.Begin("C06", "model_checking", args)
+	r.WatchProgress(watchPeriod()) // the code under test runs in this process: a call that never returns must end the check
 	if p := replayArg(args); p != "" {
 		var f struct {
 			Case c06Case `json:"case"`
